@@ -73,6 +73,9 @@ def check_program(shard, prog, argv, choices_list, exhaustive=True, nctx=4):
     except am_mod.Undefined:
         shard.event("start_undefined")
         return
+    if r0.code != 0:
+        shard.event("finished_in_start")
+        exhaustive = False      # the driver makes no calls after a terminal result
     try:
         binary = crun.Binary(comp)
     except crun.BuildError as e:
